@@ -102,6 +102,7 @@ def plan(rng, idx, tier):
         if kind == 'construct':
             op['triples'] = gen_triples(r, r.randrange(5))
             op['top'] = r.pick(VARS) if r.chance(0.4) else None
+            op['as'] = r.pick(['list', 'list', 'tuple', 'iter', 'generator'])    # "an iterable of triples"
         ops.append(op)
     return {'property': ID, 'slots': slots, 'ops': ops}
 
@@ -202,7 +203,9 @@ def build(slot):
             key = (s, colon(r), t)
             epidata[key] = mk_marker(ids)
             rmarkers[key] = list(ids)
-    g = Graph(triples, top=slot.get('top'), epidata=epidata, metadata=dict(slot.get('meta') or []))
+    how = slot.get('as') or 'list'
+    arg = {'tuple': tuple(triples), 'iter': iter(triples), 'generator': (t_ for t_ in triples)}.get(how, triples)
+    g = Graph(arg, top=slot.get('top'), epidata=epidata, metadata=dict(slot.get('meta') or []))
     return g, Ref(triples, slot.get('top'), rmarkers, slot.get('meta'))
 
 
@@ -339,7 +342,7 @@ def execute(trace):
         target_slot = None
         try:
             if name == 'construct':
-                g, r = build({'triples': op.get('triples', []), 'top': op.get('top'), 'markers': []})
+                g, r = build({'triples': op.get('triples', []), 'top': op.get('top'), 'markers': [], 'as': op.get('as')})
                 dst = op['dst'] % (n + 1) if n < 4 else op['dst'] % n
                 if dst == n:
                     heap.append(g); refs.append(r); loose.append(r.has_dups())
